@@ -60,6 +60,12 @@ pub fn note_features(rep: &mut Report, f: &synth::Features, l: &Layout) {
             rep.count(&format!("layout.{k}"));
         }
     }
+    if l.spare_fat > 0 {
+        rep.count("layout.spare_fat_sectors");
+    }
+    if l.dirty_slack {
+        rep.count("layout.dirty_slack_and_free_sectors");
+    }
     rep.max("max_entries", f.entries as u64);
     rep.max("max_total_sectors", f.total_sectors as u64);
     rep.max("max_rb_tree_depth", f.max_tree_depth as u64);
@@ -143,10 +149,38 @@ pub fn run_c04(ctx: &Ctx, rep: &mut Report) {
             continue;
         }
         let mode = if rng.chance(1, 2) { Mode::Strict } else { Mode::Permissive };
-        let sess = match Session::open_bytes(bytes.clone(), mode, None, model.clone()) {
+        let mut sess = match Session::open_bytes(bytes.clone(), mode, None, model.clone()) {
             Ok(s) => s,
             Err(_) => continue,
         };
+        // an over-provisioned FAT: grow the file until the spare FAT sectors are used up and
+        // the library has to add one of its own (the DIFAT then lists foreign and own ones)
+        if layout.spare_fat > 0 && (layout.version == 3 || rng.chance(1, 8)) {
+            let sl = if layout.version == 3 { 512usize } else { 4096 };
+            let covered = (feat.total_sectors + sl / 4 - 1) / (sl / 4) * (sl / 4) + layout.spare_fat * (sl / 4);
+            let len = (covered - feat.total_sectors + 3) * sl;
+            let steps = [Step::HOpen { slot: 0, path: "/fill".into(), how: engine::OpenHow::Create }, Step::HWriteAll { slot: 0, len }, Step::HClose { slot: 0 }];
+            let mut ok = true;
+            for st in &steps {
+                match guard::catch(|| sess.run(st)) {
+                    Ok(None) => {}
+                    Ok(Some(d)) => {
+                        rep.finding(d.signature.clone(), format!("growing a file with an over-provisioned FAT: step {}: expected {}, observed {}", d.step, d.expected, d.observed), input_witness(vec![]));
+                        ok = false;
+                        break;
+                    }
+                    Err(p) => {
+                        rep.finding(p.signature(), format!("growing a file with an over-provisioned FAT: panic at {}:{}: {}", p.file, p.line, p.message), input_witness(vec![]));
+                        ok = false;
+                        break;
+                    }
+                }
+            }
+            if !ok {
+                continue;
+            }
+            rep.count("spare_fat_filled_past_coverage");
+        }
         let mut cfg = GenCfg::default();
         cfg.refusal_pct = 10;
         cfg.reopen_pct = 4;
